@@ -151,7 +151,7 @@ _MIN = ["GenEq/GenEqTestcase", "GenEq/GenEqUtil", "GenEq/GenEqStrat", "GenEq/Gen
 _SPL = ["GenEq/GenEqSplit", "GenEq/GenEqSrcSplit"]
 TIES = {
     "C01": _DRV, "C02": _DRV, "C11": _DRV, "C12": _DRV,
-    "C03": _MIN, "C10": _MIN, "C14": _MIN,
+    "C03": _MIN, "C10": _MIN, "C14": _MIN + ["GenEq/GenEqSrcCli", "GenEq/GenEqSrcPairs"],
     "C04": _MIN + ["GenEq/GenEqSrcPairs"],
     "C09": _MIN + ["GenEq/GenEqSrcPairs", "GenEq/GenEqSrcCollapse"],
     "C13": ["GenEq/GenEqTestcase", "GenEq/GenEqUtil", "GenEq/GenEqStrat", "GenEq/GenEqSplit",
